@@ -105,12 +105,9 @@ Definition is_withmeta (op : kop) : bool :=
 Definition withmeta_cas (op : kop) : N :=
   match op with KSetWithMeta _ nc _ _ _ _ | KDeleteWithMeta _ nc _ _ => nc | _ => 0 end.
 
-Definition raise_coll_lastcas (id cas : N) (cs : list (N * (string * N))) : list (N * (string * N)) :=
-  map (fun c => if fst c =? id then (fst c, (fst (snd c), N.max (snd (snd c)) cas)) else c) cs.
-
 (* apply one key-value call to collection id `cid`.  A regular write sets bucket.lastCas and the
    collection's lastCas to its new CAS (setLastCas).  A successful WithMeta write, whose CAS the caller
-   chose, raises both to at least that CAS and resets views.lastCas of every view of the collection
+   chose, sets both to a fresh timestamp and resets views.lastCas of every view of the collection
    (writeWithMeta), so that the next non-stale query rebuilds those indexes. *)
 Definition kv_on (s : store) (x : sctx) (cid : N) (key : string) (op : kop) : sres :=
   let c1 := hlc_now (s_high s) (x_clock x) in
@@ -119,15 +116,9 @@ Definition kv_on (s : store) (x : sctx) (cid : N) (key : string) (op : kop) : sr
   let evs := map (fun e => (cid, key, e)) (kr_events res) in
   let meta_ok := is_withmeta op && negb (match kr_resp res with RErr _ => true | _ => false end) in
   let s' := mkStore (aput dkey_eqb (cid, key) (kr_row res) (s_docs s))
-                    (match kr_commit res with
-                     | Some c => set_coll_lastcas cid c (s_colls s)
-                     | None => if meta_ok then raise_coll_lastcas cid (withmeta_cas op) (s_colls s) else s_colls s
-                     end)
+                    (match kr_commit res with Some c => set_coll_lastcas cid c (s_colls s) | None => s_colls s end)
                     (s_nextcoll s)
-                    (match kr_commit res with
-                     | Some c => c
-                     | None => if meta_ok then N.max (s_lastcas s) (withmeta_cas op) else s_lastcas s
-                     end)
+                    (match kr_commit res with Some c => c | None => s_lastcas s end)
                     high'
                     (s_log s ++ evs)
                     (if meta_ok
